@@ -4,7 +4,7 @@ Every alarm is a false alarm to be triaged. usage: benign_sweep.py <dir-with-dif
 import json, os, re, subprocess, sys, glob, shutil, tempfile
 
 ENV = dict(os.environ, GOFLAGS="-mod=mod", GOPROXY="off", GOSUMDB="off", GOTOOLCHAIN="local", GOWORK="off")
-WT = "/tmp/wt/bsweep"
+WT = "/tmp/wt/bsweep%d" % os.getpid()
 
 def sh(cmd, cwd=None):
     p = subprocess.run(cmd, shell=True, cwd=cwd, env=ENV, stdout=subprocess.PIPE, stderr=subprocess.STDOUT, text=True)
